@@ -424,3 +424,51 @@ class RejectionSample(Contract):
             now = s0.f.get(k, NONE)
             p.prove(arr_eq_goal(now, before), f"{q}:C02:frame: source field {k} unchanged by rejection sampling")
 
+
+
+class PickleRoundTrip(Contract):
+    """C16: __setstate__(__getstate__(s)) restores every field of a sample set exactly - nothing is recomputed on the way (a selection carries
+    its parent's evidence, which is not what its own weights would give)"""
+    qual = "samples:BaseSamples.__setstate__"
+    properties = ("C16", "C13")
+    doc = "the object rebuilt from __getstate__() has every attribute of the original (per-sample fields, weights, carried evidence, parameters, dtype); xp is the namespace of x"
+
+    def must_return(self, shape):
+        return True
+
+    def shapes(self):
+        return [{"cls": c, "present": p} for c in ("BaseSamples", "Samples", "SMCSamples") for p in (SUBSETS[0], SUBSETS[-1])]
+
+    def setup(self, I, shape):
+        s = mk_any_samples(I, shape["cls"], "s", shape["present"])
+        if shape["cls"] == "Samples":
+            # a selection: the evidence it carries is its parent's, unrelated to its own log_w
+            s.f["log_evidence"] = R(z3.Real("carried_log_evidence"))
+            s.f["log_evidence_error"] = R(z3.Real("carried_log_evidence_error"))
+        snap = dict(s.f)
+        get = I.front.get("samples:BaseSamples.__getstate__")
+        I.depth += 1
+        try:
+            state = I.call_repo(get, s, [], {}, None, force_inline=True)
+        finally:
+            I.depth -= 1
+        fresh_obj = Obj(shape["cls"], {})
+        return Pre(fresh_obj, [state], {}, ghost={"orig": s, "snap": snap, "new": fresh_obj, "shape": shape, "state": state})
+
+    def post(self, I, pre, r):
+        p, g = I.path, pre.ghost
+        q = self.qual
+        new, snap = g["new"], g["snap"]
+        tag = f"[{g['shape']['cls']}, fields {g['shape']['present'] or 'x only'}]"
+        for k, v in snap.items():
+            if k.startswith("__") or k in ("xp", "device"):
+                continue
+            got = new.f.get(k)
+            if isinstance(v, (Z,)):
+                ok = I.equal(got, v) if got is not None else z3.BoolVal(False)
+            else:
+                ok = z3.BoolVal(got is v or (isinstance(v, NoneV) and isinstance(got, NoneV)))
+            p.prove(ok, f"{q}:C16:C13:attribute {k} is restored as it was pickled (nothing recomputed) {tag}")
+        p.prove(z3.BoolVal("xp" in new.f and not isinstance(new.f["xp"], (NoneV, Str))), f"{q}:C16:the array namespace is restored from x {tag}")
+        for k in snap:
+            p.prove(z3.BoolVal(g["orig"].f.get(k) is snap[k]), f"{q}:C16:frame: pickling leaves attribute {k} of the source untouched {tag}")
